@@ -215,6 +215,17 @@ class BuiltinMixin:
             m = self.repo.find_method(cls, "__len__")
             if m is not None:
                 return self.unbox(self.call_function(m, [x], {}, st, fr, node), "int").t
+        if x.pt == "any":
+            # dispatch on the run-time class over the repository classes that define __len__; anything else has some length >= 0
+            definers = [c for c, ci in self.repo.classes.items() if "." not in c and "__len__" in ci.methods]
+            roots = [c for c in definers if not any(d != c and d in self.repo.classes[c].mro for d in definers)]
+            res = self.fresh("len", z3.IntSort())
+            st.facts.append(res >= 0)
+            for r in roots:
+                cond = v.isinstance_(self.box(x), r)
+                got = self.under(st, cond, lambda r=r: self.unbox(self.call_function(self.repo.find_method(r, "__len__"), [SV(x.t, "obj:" + r)], {}, st, fr, node), "int").t)
+                res = z3.If(cond, got, res)
+            return res
         raise Untranslatable(f"len of {x.pt}")
 
     def class_names_of(self, node, st, fr) -> List[str]:
